@@ -132,7 +132,7 @@ def run(tier, out):
         # the same on systems edited in place: the need is raised after the instance counts were computed once
         n_hist = 40 if tier == "quick" else 800
         edited = numcheck.edited_events(ns, range(base + 50000, base + 50000 + n_hist), 5, theorems=["sizing"],
-                                        with_fixed=True, allow_delete=False)
+                                        with_fixed=True, allow_delete=False, group_prob=0.2)
         for e in edited:
             e["tid"] += 2 * 10 ** 6
         events += edited
